@@ -32,6 +32,25 @@ const (
 	oPanic
 )
 
+// a panicking job panics with a string, an int, an error or a struct, depending on its data
+type panicStruct struct{ N int }
+
+func panicValue(d int) any {
+	switch d % 4 {
+	case 0:
+		return fmt.Sprintf("boom-%d", d)
+	case 1:
+		return d
+	case 2:
+		return fmt.Errorf("boom-%d", d)
+	}
+	return panicStruct{d}
+}
+
+func panicText(d int) string {
+	return strings.ReplaceAll(fmt.Sprint(panicValue(d)), " ", "_")
+}
+
 const (
 	qFifo = iota
 	qPrio
@@ -207,7 +226,7 @@ func (e *env) wfBody(j Job[int]) (int, error) {
 		case oErr:
 			return 0, fmt.Errorf("fail-%d", d)
 		case oPanic:
-			panic(fmt.Sprintf("boom-%d", d))
+			panic(panicValue(d))
 		}
 	}
 	return d * 10, nil
